@@ -103,7 +103,7 @@ func (f *FuncCtx) callEffects(call *ast.CallExpr, lt *loopTargets) {
 		}
 		return
 	}
-	if fn.Pkg() != nil && strings.HasPrefix(fn.Pkg().Path(), grulePath) {
+	if fn.Pkg() != nil && strings.HasPrefix(fn.Pkg().Path(), grulePath) && !strings.Contains(fn.Pkg().Path(), "/antlr/parser/") {
 		lt.all = true
 	}
 }
@@ -316,6 +316,12 @@ func (f *FuncCtx) call(st *State, call *ast.CallExpr) []Term {
 	var rs []Term
 	for i := 0; i < sig.Results().Len(); i++ {
 		rs = append(rs, f.havocVal(st, "r_"+fn.Name(), sig.Results().At(i).Type()))
+	}
+	if fn.Pkg() != nil && strings.Contains(fn.Pkg().Path(), "/antlr/parser/") {
+		// T-ANTLR: the generated parser/lexer and their context accessors are opaque (fresh results, no effect on verified state)
+		f.assumed["T-ANTLR: generated parser context accessors ("+fn.Pkg().Name()+") are opaque and effect-free on verified state"] = true
+		f.impure = append(f.impure, "calls generated parser code")
+		return rs
 	}
 	if fn.Pkg() != nil && strings.HasPrefix(fn.Pkg().Path(), grulePath) {
 		// uncontracted repository function: havoc everything, may panic
